@@ -36,6 +36,7 @@ type reinitStats struct {
 	Monitors, Notes, Samples                                        []string
 	// machines restarted after the re-initialisation, batches signed by restarted machines (reinitrestart.go)
 	ReinitRestarts, SignedAfterRestart int
+	AirDkg                             airTraceStats
 }
 
 type reinitRun struct {
@@ -44,6 +45,9 @@ type reinitRun struct {
 	obs  *bufio.Writer
 	rng  *rand.Rand
 	tier string
+	// the key-generation operations of the original ceremonies and the reinit_dkg operations of the new installations, as
+	// lines for the Lean model of the handlers (airdkg.go)
+	air *airTrace
 }
 
 func (r *reinitRun) mon(s string) {
@@ -115,6 +119,7 @@ func (r *reinitRun) scenarioE(outDir string, n, t int, interleave, junk, adapt, 
 		r.mon("harness: " + err.Error())
 		return
 	}
+	a.airTrace = r.air
 	round, err := a.startDKG(t)
 	if err != nil {
 		r.mon("harness: " + err.Error())
@@ -273,6 +278,7 @@ func (r *reinitRun) scenarioE(outDir string, n, t int, interleave, junk, adapt, 
 		r.mon("harness: " + err.Error())
 		return
 	}
+	b.airTrace = r.air
 	defer b.close()
 	newKeys := map[string][]byte{}
 	for _, nd := range b.nodes {
@@ -546,6 +552,9 @@ func runReinitDiff(outDir string, seed int64, tier string) {
 		n, t                              int
 		interleave, junk, adapt, blankIDs bool
 	}
+	fao, _ := os.Create(filepath.Join(outDir, "airdkg_ops.txt"))
+	fab, _ := os.Create(filepath.Join(outDir, "airdkg_obs.txt"))
+	r.air = newAirTrace(bufio.NewWriter(fao), bufio.NewWriter(fab))
 	cfgs := []cfg{{3, 2, false, false, false, true}, {2, 2, true, true, false, false}, {3, 2, false, true, true, false}}
 	if tier == "thorough" {
 		cfgs = append(cfgs, cfg{4, 3, true, true, false, false}, cfg{3, 3, true, false, true, true}, cfg{5, 2, false, false, false, false}, cfg{4, 2, true, true, true, false}, cfg{3, 2, false, false, false, false})
@@ -563,6 +572,10 @@ func runReinitDiff(outDir string, seed int64, tier string) {
 	r.obs.Flush()
 	fo.Close()
 	fb.Close()
+	r.air.flush()
+	fao.Close()
+	fab.Close()
+	r.st.AirDkg = r.air.st
 	writeJSON(filepath.Join(outDir, "stats.json"), r.st)
 	restore()
 	fmt.Printf("reinitdiff: scenarios=%d reinits=%d hash edits=%d monitors=%d notes=%d\n", r.st.Scenarios, r.st.Reinits, r.st.HashEdits, len(r.st.Monitors), len(r.st.Notes))
